@@ -10,7 +10,7 @@ from common import Driver, DriverFailure, REPO, hx
 
 LEVEL = "proof"
 MANIFEST = dict(
-    text="Lean 4 theorems over the command model (on C02's accessor model and C05's echo application) for every well-formed item, every 1024-byte block (= every  Session 4: a LONG session on one connection (140 pack commands, more than two cycles of the command sequence numbers): each still one well-formed in-range command, applied and read back."
+    text="Lean 4 theorems over the command model (on C02's accessor model and C05's echo application) for every well-formed item, every 1024-byte block (= every  Session 4: a LONG session on one connection (140 pack commands, more than two cycles of the command sequence numbers): each still one well-formed in-range command, applied and read back. Session 4: a long session on the blocking client too (real GeckoSpa, real pump and switch classes, 150 commands decoded by the real SPACK decoder, stored and echoed)."
          "current state) and every argument: an on/off command emits at most one command and none exactly when already in the requested state (one_or_none); key-press "
          "devices press once and - the spa toggling being the property's stated assumption - reach the requested state after which the command is a no-op; direct-write "
          "switches (economy mode), pump modes, temperature unit and watercare emit exactly one set-value / SETWC that the spa can store and that reads back as requested "
@@ -434,8 +434,115 @@ def threaded_twins(ctx, lines, impl_ans, rng):
                 ctx.hist("commands", "threaded-switch")
 
 
+def threaded_long_session(ctx):
+    """the BLOCKING client over a long session: a real GeckoSpa (its own sequence counters, its real `_on_set_value` / `press`), the
+    real pump and switch classes, a model spa that decodes each queued SPACK with the real decoder, stores the write and echoes it.
+    More than two whole cycles of the command numbers; every command one well-formed in-range SPACK that is applied and read back"""
+    import importlib
+    from geckolib.spa import GeckoSpa
+    from geckolib.const import GeckoConstants
+    from geckolib.automation.pump import GeckoPump
+    from geckolib.automation.switch import GeckoSwitch
+    from geckolib.driver.protocol.packcommand import GeckoPackCommandProtocolHandler
+    from props.c16 import _Desc, _seq_byte
+    spa = GeckoSpa(_Desc())
+    spa.pack_type, spa.config_version, spa.log_version = 6, 50, 50
+    lm = importlib.import_module("geckolib.driver.packs.inyt-log-50")
+    cm = importlib.import_module("geckolib.driver.packs.inyt-cfg-50")
+    spa.struct.build_accessors(cm.GeckoConfigStruct(spa.struct), lm.GeckoLogStruct(spa.struct))
+    spa.struct.set_status_block(bytes(1024))
+
+    class Fac:
+        unique_id, name = "u", "n"
+
+        def __init__(self, spa_):
+            self._spa = self.spa = spa_
+    fac = Fac(spa)
+    pump = GeckoPump(fac, "P1", GeckoConstants.DEVICES["P1"], {"demand": spa.accessors["UdP1"].tag, "options": spa.accessors["UdP1"].items})
+    eco = GeckoSwitch(fac, "ECON", ("Economy Mode", 0, "EconActive", "SWITCH")) if "EconActive" in spa.accessors else None
+    modes = [m for m in pump.modes if m][:2]
+    ud = spa.accessors[pump._user_demand["demand"]]
+    taken = [0]
+
+    def queued():
+        """the datagrams the client queued since the last look (the send queue is the client's public hand-over to its engine)"""
+        hs = spa._send_handlers[taken[0]:]
+        taken[0] = len(spa._send_handlers)
+        return [h.send_bytes for h, _ in hs]
+    n_cmd = 0
+    for k in range(LONG_SESSION + 10):
+        use_eco = eco is not None and k % 5 == 4
+        label = f"{'eco' if use_eco else 'pump'}:{k}"
+        try:
+            if use_eco:
+                want = not eco.is_on
+                (eco.turn_on if want else eco.turn_off)()
+            else:
+                want = modes[0] if ud.value != modes[0] else modes[1]
+                pump.set_mode(want)
+            err = None
+        except Exception as e:  # noqa
+            err = f"{type(e).__name__}: {e}"
+        sent = queued()
+        ctx.count("evaluations")
+        ctx.hist("commands", "threaded-long-session")
+        inp = {"client": "threaded", "nth_command": n_cmd + 1, "command": label}
+        if err is not None or len(sent) != 1:
+            ctx.violation("threaded-long-session:count", inp, "exactly one command datagram, no exception", {"error": err, "datagrams": len(sent)})
+            break
+        n_cmd += 1
+        verb, seq = _seq_byte(sent[0])
+        if verb != "SPACK" or not (192 <= seq <= 255):
+            ctx.violation("threaded-long-session:seq-range", inp, "an SPACK with a sequence number in 192..255", [verb, seq])
+            break
+        i = sent[0].find(b"<DATAS>")
+        content = sent[0][i + 7:sent[0].find(b"</DATAS>")]
+        d = GeckoPackCommandProtocolHandler()
+        d.handle(content, ("10.0.0.1", 10022))
+        if d.pack_type != spa.pack_type:
+            ctx.violation("threaded-long-session:pack-type", inp, spa.pack_type, d.pack_type)
+            break
+        if d.is_set_value:
+            spa.struct.replace_status_block_segment(d.position, d.new_data)          # the spa stores the write and reports it
+        elif d.is_key_press and use_eco:
+            acc = spa.accessors["EconActive"]
+            blk = bytearray(spa.struct.status_block)
+            blk[acc.pos] ^= (1 << acc.bitpos) if acc.bitpos is not None else 1
+            spa.struct.replace_status_block_segment(acc.pos, bytes(blk[acc.pos:acc.pos + 1]))
+        got = eco.is_on if use_eco else ud.value
+        if got != want:
+            ctx.violation("threaded-long-session:not-applied", inp, f"reads back {want!r} after the spa's echo", repr(got))
+            break
+    ctx.cov["threaded_long_session_commands"] = n_cmd
+    # ---- the blocking watercare command: one SETWC in the protocol range carrying the requested mode, the local mode follows
+    from geckolib.automation.watercare import GeckoWaterCare
+    wc = GeckoWaterCare(fac)
+    queued()
+    for label in list(wc.modes) + [2, 0]:
+        want = wc.modes.index(label) if isinstance(label, str) else label
+        try:
+            wc.set_mode(label)
+            err = None
+        except Exception as e:  # noqa
+            err = f"{type(e).__name__}: {e}"
+        sent = queued()
+        ctx.count("evaluations")
+        ctx.hist("commands", "threaded-watercare")
+        inp = {"client": "threaded", "command": f"watercare:{label}"}
+        ok = err is None and len(sent) == 1
+        if ok:
+            verb, seq = _seq_byte(sent[0])
+            i = sent[0].find(b"<DATAS>")
+            content = sent[0][i + 7:sent[0].find(b"</DATAS>")]
+            ok = verb == "SETWC" and 1 <= seq <= 191 and len(content) == 7 and content[6] == want and wc.mode == want
+        if not ok:
+            ctx.violation("threaded-watercare", inp, f"one SETWC (sequence in 1..191) carrying mode {want}; the client's mode reads {want}",
+                          {"error": err, "datagrams": [d[d.find(b'<DATAS>') + 7:d.find(b'</DATAS>')].hex() for d in sent], "client_mode": wc.mode})
+            break
+
+
 def run(ctx):
-    st = translate.run(["AccessorArith", "Packs", "Pinned", "PartialFacts", "SeqCounter", "WatercareSteps"])
+    st = translate.run(["AccessorArith", "Packs", "Pinned", "PartialFacts", "SeqCounter", "WatercareSteps", "Skeletons"])
     ctx.cov["translator"] = st
     for k, v in st.items():
         if v != "ok":
@@ -464,6 +571,10 @@ def run(ctx):
         else:
             ctx.hist("not_connected", os.path.basename(s).split("-")[0])
     threaded_twins(ctx, lines, impl_ans, rng)
+    try:
+        threaded_long_session(ctx)
+    except Exception as e:  # noqa
+        ctx.violation("threaded-long-session:raised", {"client": "threaded"}, "the session runs", f"{type(e).__name__}: {e}")
     try:
         model = Driver("Driver/C13.lean").run(lines)
     except DriverFailure as e:
